@@ -231,9 +231,15 @@ def run_e2(name, names, body, natoms=None, **kw):
     n = 24 if natoms is None else min(natoms, 24)
     while True:
         r = run_e2_once(name, names, body, natoms=n, **kw)
-        if n < 192 and any("out of atom slots" in e for e in r.get("harness_errors", [])):
+        out = [e for e in r.get("harness_errors", []) if "out of atom slots" in e]
+        if n < 192 and out:
             n *= 2
             continue
+        if out:
+            # at the cap this is a resource bound like the path budget: the path is left unexplored and counted as such
+            r["harness_errors"] = [e for e in r["harness_errors"] if "out of atom slots" not in e]
+            r["left"] = r.get("left", 0) + len(out)
+            r["bounds"] = (r.get("bounds") or "") + "; %d path(s) abandoned at the cap of %d algebraic atoms" % (len(out), n)
         r["natoms"] = n
         return r
 
